@@ -279,6 +279,35 @@ def check_equations(ctx, bp):
     ok_abs = len(ab) == 1 and (ab[0][2] in MSG or ab[0][2] == ('msg', KEY)) and len(ex.absorbs) == 1
     ctx.ob('bp-equations', bp, ab[0][0] if ab else (ex.absorbs[0][0] if ex.absorbs else loop), ok_abs,
            'the receiver absorbs the message: beliefs[%s] += message(%s->%s), and nothing else is absorbed' % (j, i, j))
+    # every edge of the schedule carries its message: the store and the absorb happen on every pass (a branch is fine when both arms do it).
+    # Also over an EMPTY separator - the scalar log-mass of the sending sub-tree: logZ is read off ONE clique and shared by all, so a component
+    # that never received it is normalised with the wrong constant
+    def is_store(n):
+        return isinstance(n, ast.Assign) and len(n.targets) == 1 and isinstance(n.targets[0], ast.Subscript) and isinstance(n.targets[0].value, ast.Name) \
+            and n.targets[0].value.id == (M_name or 'messages')
+
+    def is_absorb(n):
+        return isinstance(n, ast.AugAssign) and isinstance(n.target, ast.Subscript) and isinstance(n.target.value, ast.Name) and n.target.value.id == (B_name or 'beliefs') \
+            and U(n.target.slice) == j
+    for n in [x for x in ast.walk(loop) if is_store(x) or is_absorb(x)]:
+        kind = is_store
+        if is_absorb(n):
+            kind = is_absorb
+        cur = n
+        while cur is not loop:
+            par = getattr(cur, '_parent', None)
+            if par is None:
+                break
+            if isinstance(par, ast.If):
+                other = par.orelse if cur in par.body else par.body
+                if not any(kind(y) for o in other for y in ast.walk(o)):
+                    ctx.ob('bp-equations', bp, n, False,
+                           'the message over an edge of the schedule is %s only when `%s%s`: on the other passes the receiver never gets the log-mass of the sending '
+                           'sub-tree (for an empty separator: a scalar), and since one logZ is shared by all cliques its component is normalised with the wrong constant'
+                           % ('stored' if kind is is_store else 'absorbed', '' if cur in par.body else 'not ', U(par.test)[:60]),
+                           construct='message sent on every pass: `%s`' % U(n)[:50])
+                    break
+            cur = par
     # the normaliser is the full logsumexp of a clique belief, computed after the message loop
     after = bp.body[bp.body.index(loop) + 1:]
     ex2 = BPTerms(B_name or 'beliefs', M_name or 'messages')
